@@ -328,8 +328,27 @@ def targeted(rng, curve="BN254"):
     values merged at joins, loops, every operator on constants)."""
     p = PRIMES[curve]
     lit = lambda: str(rng.choice([0, 1, 2, 3, 5, p - 1, p // 2, p // 2 + 1, 255, 256, 1 << 20]))
-    k = rng.randrange(22)
-    if k >= 18:    # arrays filled from signals, late updates, late-known indices
+    k = rng.randrange(26)
+    if k >= 22:    # a branch or loop that is the LAST statement of an outer branch: the outer join gets the inner
+        #            predecessors directly, and every condition on the way decides which definition is merged
+        sm = lambda: str(rng.randrange(0, 5))
+        outer = rng.choice(["n == %s" % sm(), "n > %s" % sm(), "1 == 1", "n != %s" % sm()])
+        inner = rng.choice(["a == %s" % sm(), "a > %s" % sm(), "a * a == %s" % sm(), "n == %s" % sm()])
+        v1, v2, v3 = rng.choice([("1", "2", "3"), ("a", "2", "a * a"), ("1", "a", "3"), ("a", "a + 1", "2")])
+        use = rng.choice(["x", "x * a", "x + a * a"])
+        shape = rng.randrange(5)
+        if shape == 0:
+            body = "var x; if (%s) { if (%s) { x = %s; } else { x = %s; } } else { x = %s; }" % (outer, inner, v1, v2, v3)
+        elif shape == 1:
+            body = "var x = %s; if (%s) { if (%s) { x = %s; } }" % (v3, outer, inner, v1)
+        elif shape == 2:
+            body = "var x = %s; if (%s) { x = %s; if (%s) { x = %s; } }" % (v3, outer, v2, inner, v1)
+        elif shape == 3:
+            body = "var x = %s; if (%s) { var i = 0; while (i < a) { x = %s; i += 1; } }" % (v3, outer, v1)
+        else:
+            body = "var x = %s; if (%s) { x = %s; } else { if (%s) { x = %s; } }" % (v3, outer, v2, inner, v1)
+        return "template T(n) { signal input a; signal output b; %s b <-- %s; }" % (body, use)
+    if k >= 18 and k < 22:    # arrays filled from signals, late updates, late-known indices
         return array_shape(rng, lit)
     if k >= 16:    # a parameter (array) reassigned / updated element-wise more than once: its later versions are
         #            named by no declaration statement (defect D20, repaired in /repo 2468c0a)
